@@ -273,6 +273,8 @@ def feasible(spec):
             return False
         if o["duration"] < 1:
             return False
+        if vol > 0 and min(spec["hot"]["rate"], spec["cold"]["rate"]) <= 0:
+            return False          # data that can never be moved between the tiers
     s = spec["scheduling"]
     if s["kind"] == "batch":
         if s.get("split"):
@@ -320,7 +322,7 @@ def serial_bound(spec):
     d = spec.get("delay")
     for o in spec["observations"]:
         vol = o["rate"] * o["duration"]
-        b += o["duration"] + 2 * math.ceil(vol / rate) + c
+        b += o["duration"] + (2 * math.ceil(vol / rate) if rate > 0 else 0) + c
         for n in o["workflow"]["nodes"]:
             rt = max(n["comp"] // slow_cpu, n.get("task_data", 0) // slow_bw)
             if d and "prob" in d:
